@@ -218,7 +218,10 @@ class mapper(object):
         cur = 0
         for p in res:
             plen = len(p)
-            if isinstance(p, bytes):
+            if isinstance(p, exp) and p._is_top:
+                # an unknown (top, vecw) part of a stored value is not an unwritten one: keep it
+                pass
+            elif isinstance(p, bytes):
                 p = cst(Bits(p[::endian], bitorder=1).int(), plen * 8)
             elif isinstance(p, exp):
                 if p._is_def == 0:
